@@ -236,6 +236,13 @@ pub fn catalogue(env: &mut Env, rng: &mut Rng) -> Vec<Artefact> {
         tx.data = pay(&vo, &victim, &victim.pk).serialize_for_net();
         tx.sign(&attacker.sk);
         out.push(Artefact { edit: "atr-type-forged", tx, pool_gates: true });
+        // the same with an ordinary output slip (what the block's rebroadcast commitment sees of
+        // a rebroadcast transaction must not depend on the types of its output slips)
+        let mut tx = build_tx(&attacker, &[vo.clone()], &[(attacker.pk, vo.amount)], ts, &[]);
+        tx.transaction_type = TransactionType::ATR;
+        tx.data = pay(&vo, &victim, &victim.pk).serialize_for_net();
+        tx.sign(&attacker.sk);
+        out.push(Artefact { edit: "atr-type-forged-normal-output", tx, pool_gates: true });
         // Issuance after block 1
         let mut tx = Transaction::create_issuance_transaction(attacker.pk, 77_000_000);
         tx.timestamp = ts;
